@@ -56,6 +56,7 @@ class OpGen:
         self.bufs = []
         self.wranges = []          # address ranges that hold weights / scales (DMA destinations)
         self.lut_slots = []        # LUT slots that were DMA'ed
+        self.last_ofm = None
         self.stats = {}
 
     def count(self, k):
@@ -122,7 +123,7 @@ class OpGen:
 
     def rand_shape(self):
         rng = self.rng
-        return (rng.choice([1, 2, 3, 4, 5, 7, 8, 12, 16, 24]), rng.choice([1, 2, 3, 4, 7, 8, 9, 16, 20]),
+        return (rng.choice([1, 2, 3, 4, 5, 7, 8, 12, 16, 24, 32, 40]), rng.choice([1, 2, 3, 4, 7, 8, 9, 16, 20, 33]),
                 rng.choice([1, 3, 4, 8, 16, 16, 20, 32, 48]))
 
     # ---- operations -----------------------------------------------------------------------------
@@ -204,12 +205,16 @@ class OpGen:
             self.count("dma_random")
         return api.NpuDmaOperation(src, dst)
 
-    def gen_kernel(self, force=None):
+    def gen_kernel(self, force=None, consume_last=False, lut=None):
+        """force: operation kind; consume_last: the IFM is the most recent OFM (producer -> consumer pair);
+        lut: True / False forces / forbids a table-lookup activation (None: random)"""
         api, rng = self.api, self.rng
         kind = force or rng.choice(["conv", "conv", "dw", "pool", "ew", "ew", "ew_unary"])
         # 32-bit feature maps (REDUCE_SUM results) feed elementwise operations only
         ok32 = (lambda b: True) if kind in ("ew", "ew_unary") else (lambda b: b.dtype != api.NpuDataType.INT32)
         ifm_b = self.pick_buf(ok32)
+        if consume_last and self.last_ofm is not None and ok32(self.last_ofm):
+            ifm_b = self.last_ofm
         if ifm_b is None:
             h, w, d = self.rand_shape()
             ifm_b = self.new_buf(h, w, d)
@@ -242,9 +247,11 @@ class OpGen:
             oh, ow, od = ifm_b.h, ifm_b.w, ifm_b.d
             odtype = ifm_b.dtype
         else:
-            kw, kh = rng.choice([(1, 1), (3, 3), (3, 1), (1, 3), (2, 2), (3, 2), (5, 5), (1, 7)])
-            sx, sy = rng.choice([(1, 1), (1, 1), (2, 2), (1, 2), (2, 1)])
-            dx, dy = (1, 1) if rng.random() < 0.85 else rng.choice([(2, 2), (1, 2), (2, 1)])
+            # kernel extents over the whole range the hardware walks in sub-kernels of 8x8: up to and beyond 8 (and 16)
+            kw, kh = rng.choice([(1, 1), (3, 3), (3, 1), (1, 3), (2, 2), (3, 2), (5, 5), (1, 7), (3, 3), (7, 7),
+                                 (3, 12), (12, 3), (9, 9), (1, 9), (9, 1), (8, 8), (2, 17), (17, 2), (5, 11)])
+            sx, sy = rng.choice([(1, 1), (1, 1), (2, 2), (1, 2), (2, 1), (3, 3), (1, 3)])
+            dx, dy = (1, 1) if rng.random() < 0.75 else rng.choice([(2, 2), (1, 2), (2, 1)])
             if kind == "pool":
                 dx = dy = 1
             kdw, kdh = (kw - 1) * dx + 1, (kh - 1) * dy + 1
@@ -308,7 +315,14 @@ class OpGen:
             self.bufs.remove(ofm_b)
             self.bufs.append(ofm_b)
         op.ofm = fm_from_buf(api, ofm_b, quant)
-        self.activation(op, odtype)
+        self.last_ofm = ofm_b
+        if lut is None:
+            self.activation(op, odtype)
+        elif lut:
+            act = api.NpuActivation(api.NpuActivationOp.TABLE_LOOKUP)
+            act.lookup_table_index = rng.choice(self.lut_slots) if self.lut_slots else rng.randrange(8)
+            op.activation = act
+            self.count("act_lut")
         bc = self.block_config(op)
         if bc is None:
             return None
@@ -316,12 +330,58 @@ class OpGen:
         self.count("kernel_" + kind)
         return op
 
-    def gen_list(self, n, p_dma=0.4):
+    def lut_dma(self):
+        api, rng = self.api, self.rng
+        slot = rng.randrange(8)
+        src = api.NpuAddressRange(0, align(rng.randrange(0, 1 << 16), 16), 256)
+        dst = api.NpuAddressRange(259, int(self.arch.shram_lut_address) + 256 * slot, 256)
+        self.lut_slots.append(slot)
+        self.count("dma_lut")
+        return api.NpuDmaOperation(src, dst)
+
+    def gen_pattern(self):
+        """short directed sequences around the two mechanisms of the property that random mixing reaches rarely:
+        producer -> consumer pairs (BLOCKDEP path through the loops, any kernel extent) and the SHRAM lookup table
+        (kernel running while the next table is DMA'ed; table user followed by an unrelated kernel)"""
+        rng = self.rng
+        r = rng.random()
+        seq = []
+        if r < 0.5:
+            self.count("pattern_chain")
+            seq.append(lambda: self.gen_kernel())
+            for _ in range(rng.choice([1, 1, 2])):
+                seq.append(lambda: self.gen_kernel(force=rng.choice(["conv", "dw", "pool", "conv"]), consume_last=True))
+        elif r < 0.8:
+            self.count("pattern_kernel_lutdma_lutuser")
+            seq.append(lambda: self.gen_kernel(force=rng.choice(["conv", "dw", "pool", "ew"]), lut=False))
+            seq.append(self.lut_dma)
+            seq.append(lambda: self.gen_kernel(lut=True, consume_last=rng.random() < 0.5))
+        else:
+            self.count("pattern_lutuser_then_other")
+            seq.append(self.lut_dma)
+            seq.append(lambda: self.gen_kernel(lut=True))
+            seq.append(lambda: self.gen_kernel(force=rng.choice(["conv", "dw", "pool", "ew"]), lut=False,
+                                               consume_last=rng.random() < 0.3))
+        out = []
+        for mk in seq:
+            try:
+                op = mk()
+            except Exception:  # noqa: B902  npu_find_block_configs asserts on some shapes
+                self.count("gen_kernel_exception")
+                op = None
+            if op is not None:
+                out.append(op)
+        return out
+
+    def gen_list(self, n, p_dma=0.4, p_pattern=0.35):
         ops = []
         tries = 0
         while len(ops) < n and tries < 6 * n:
             tries += 1
-            if self.rng.random() < p_dma:
+            r = self.rng.random()
+            if r < p_pattern:
+                ops.extend(self.gen_pattern())
+            elif self.rng.random() < p_dma:
                 ops.append(self.gen_dma())
             else:
                 try:
